@@ -39,15 +39,27 @@ class Shim:
         self.pos += 1
         return v
 
+    @staticmethod
+    def _legal(v, size, lo, hi, what):
+        """the scripted value must be a possible outcome of the call the implementation ACTUALLY makes; if it
+        is not, the implementation's sequence of RNG calls is not the modelled one (ScriptMismatch: the
+        driver then falls back to the real generator - conformance drift, not a verdict)"""
+        if (size is None) != (not isinstance(v, (list, tuple))):
+            raise ScriptMismatch(f"{what}: scalar/vector mismatch")
+        vals = [v] if size is None else list(v)
+        if size is not None and len(vals) != int(np.prod(size)):
+            raise ScriptMismatch(f"{what}: {len(vals)} scripted values for size {size}")
+        if any((not isinstance(x, (int, np.integer))) or x < lo or x >= hi for x in vals):
+            raise ScriptMismatch(f"{what}: scripted value outside [{lo}, {hi})")
+
     def binomial(self, n, p, size=None):
         sz = 0 if size is None else int(np.prod(size))
         if self.script is None:
             out = self._orig["binomial"](n, p, size)
         else:
             v = self._next()
+            self._legal(v, size, 0, int(np.max(n)) + 1, "binomial")
             out = np.int64(v) if size is None else np.asarray(v, dtype=np.int64).reshape(size)
-            if (size is None) != (not isinstance(v, (list, tuple))):
-                raise ScriptMismatch("binomial scalar/vector mismatch")
         self.calls.append({"fn": "binomial", "n": int(n), "p": _rat(p), "a": 0, "size": sz,
                            "out": int(out) if size is None else [int(x) for x in np.asarray(out).reshape(-1)]})
         return out
@@ -58,6 +70,7 @@ class Shim:
             out = self._orig["poisson"](lam, size)
         else:
             v = self._next()
+            self._legal(v, size, 0, 1 << 40, "poisson")
             out = np.int64(v) if size is None else np.asarray(v, dtype=np.int64).reshape(size)
         # lam = n * p with p = 1/size : record n = round(lam * size)
         n = int(round(float(lam) * max(sz, 1)))
@@ -72,6 +85,9 @@ class Shim:
             idx = self._orig["choice"](m, size, replace, p)     # same stream as choice(arr, ...)
         else:
             v = self._next()
+            self._legal(v, size, 0, m, "choice")
+            if not replace and size is not None and len(set(np.ravel(v).tolist())) != int(np.prod(size)):
+                raise ScriptMismatch("choice without replacement: scripted outcome repeats an index")
             idx = np.int64(v) if size is None else np.asarray(v, dtype=np.int64).reshape(size)
         sz = 0 if size is None else int(np.prod(size))
         self.calls.append({"fn": "choice" if replace else "choice_norepl", "n": 0, "p": [0, 1], "a": m,
@@ -83,7 +99,10 @@ class Shim:
         if self.script is None:
             out = self._orig["randint"](low, high, size, dtype)
         else:
-            out = np.int64(self._next())
+            v = self._next()
+            lo_, hi_ = (0, int(low)) if high is None else (int(low), int(high))
+            self._legal(v, size, lo_, hi_, "randint")
+            out = np.int64(v) if size is None else np.asarray(v, dtype=np.int64).reshape(size)
         a = int(low) if high is None else int(high) - int(low)
         if self.script is not None and self.randint_max and a > 0:
             out = np.int64((0 if high is None else int(low)) + a - 1)    # a legal outcome of THIS call
